@@ -5,7 +5,7 @@ from sievelib.parser import Parser
 
 RULE = ("sequences of 2–6 scripts (valid generated, single-edit invalid, truncated mid-construct, differing requires) through ONE reused "
         "Parser with fresh Parsers and FiltersSet scenarios interleaved; systematically, every token prefix of scripts using each stateful "
-        "parser feature, followed by each of 11 tail tokens, then 4 probe scripts on the same Parser; every outcome compared with the history-free model and, for a "
+        "parser feature, followed by each of 11 tail tokens, then 10 probe scripts (lists, comparators, extension-bound tags without their require) on the same Parser; every outcome compared with the history-free model and, for a "
         "sample, with a pristine interpreter; factory scenarios compared with their pristine-interpreter output after each history; "
         "non-trivial = step ≥ 2 of a sequence")
 
@@ -99,12 +99,17 @@ def run(ctx):
     BASES = [b'require "imap4flags"; if hasflag "\\\\Seen" { keep; }', b'require "imap4flags"; if anyof (hasflag "x", hasflag ["a","b"]) { keep; }',
              b'require "imap4flags"; if not hasflag "v" "f" { stop; }', b'require ["fileinto","copy"]; fileinto :copy "a"; # c\n',
              b'if allof (true, not false) { keep; } else { stop; }', b'require "vacation"; vacation :days 3 text:\nx\n.\n;',
-             b'if header :comparator "i;octet" ["a","b"] "c" { /* c */ keep; }', b'require "imap4flags"; addflag ["a","b"]; keep :flags "x";']
+             b'if header :comparator "i;octet" ["a","b"] "c" { /* c */ keep; }', b'require "imap4flags"; addflag ["a","b"]; keep :flags "x";',
+             b'require ["comparator-i;ascii-numeric", "relational", "regex"]; keep;', b'require "comparator-i;ascii-numeric"; stop;',
+             b'require ["fileinto", "copy", "envelope"]; if envelope ["from", "to"] ["a", "b"] { fileinto :copy "x"; }']
     TAILS = [b"", b"{", b",", b")", b";", b"}", b"(", b"]", b'"s"', b":tag", b"foo"]
-    PROBES = [b"# first\nkeep;", b'require "fileinto"; fileinto "a";', b"if true { keep; }", b"keep;"]
+    PROBES = [b"# first\nkeep;", b'require "fileinto"; fileinto "a";', b"if true { keep; }", b"keep;",
+              b'require ["fileinto"]; if header ["a", "b"] ["c"] { fileinto "d"; }', b'if header :comparator "i;ascii-numeric" "a" "1" { keep; }',
+              b'if header :regex "a" "b" { keep; }', b'if header :count "gt" "a" "1" { keep; }', b'keep :flags "x";', b'fileinto :copy "a";']
     probe_alone = {q: pyref.parse_answer(q, parser=Parser()) for q in PROBES}
     for base in BASES:
-        toks = [x for x in base.replace(b"(", b" ( ").replace(b")", b" ) ").replace(b",", b" , ").replace(b";", b" ; ").split(b" ") if x]
+        import oracle_generic
+        toks = [v for _, v in oracle_generic.tokenize(base)]
         for k in range(1, len(toks) + 1):
             for tail in TAILS:
                 first = b" ".join(toks[:k] + ([tail] if tail else []))
